@@ -1196,9 +1196,7 @@ impl TensorStore {
                         ScalarValue::Int(i) => CompressedScalar::Int(*i),
                         ScalarValue::Float(f) => CompressedScalar::Float(*f),
                         ScalarValue::String(s) => CompressedScalar::String(s.clone()),
-                        ScalarValue::Bytes(b) => {
-                            CompressedScalar::String(format!("bytes:{}", b.len()))
-                        },
+                        ScalarValue::Bytes(b) => CompressedScalar::Bytes(b.clone()),
                     }),
                     TensorValue::Vector(v) => compress_vector(v, &key, field_name, &config)
                         .map_err(|e| SnapshotError::SerializationError(e.to_string()))?,
@@ -1262,6 +1260,7 @@ impl TensorStore {
                             CompressedScalar::Int(i) => ScalarValue::Int(i),
                             CompressedScalar::Float(f) => ScalarValue::Float(f),
                             CompressedScalar::String(s) => ScalarValue::String(s),
+                            CompressedScalar::Bytes(b) => ScalarValue::Bytes(b),
                         })
                     },
                     CompressedValue::VectorRaw(v) => TensorValue::Vector(v),
